@@ -194,12 +194,12 @@ Definition pnum (cs : chars) : option (pyval * chars) :=
   end.
 
 (* dict display semantics: a repeated key overwrites the value, keeps the first position *)
-Fixpoint dict_set (kv : list (chars * pyval)) (k : chars) (v : pyval) : list (chars * pyval) :=
+Fixpoint dict_set {B : Type} (kv : list (chars * B)) (k : chars) (v : B) : list (chars * B) :=
   match kv with
   | [] => [(k, v)]
   | (k', v') :: r => if chars_eqb k k' then (k', v) :: r else (k', v') :: dict_set r k v
   end.
-Definition dict_norm (kv : list (chars * pyval)) : list (chars * pyval) :=
+Definition dict_norm {B : Type} (kv : list (chars * B)) : list (chars * B) :=
   fold_left (fun acc p => dict_set acc (fst p) (snd p)) kv [].
 
 Definition is_quote (c : ascii) : bool := Ascii.eqb c cSQ || Ascii.eqb c cDQ.
